@@ -2,6 +2,7 @@
 package main
 
 import (
+	"encoding/json"
 	"flag"
 	"fmt"
 	"os"
@@ -43,7 +44,7 @@ func extractAll(out string) error {
 	}
 	files, _ := filepath.Glob(filepath.Join(out, "*.lean"))
 	for _, f := range files {
-		if !keep[filepath.Base(f)] {
+		if !keep[filepath.Base(f)] && !keepExtra[filepath.Base(f)] {
 			os.Remove(f)
 		}
 	}
@@ -51,3 +52,8 @@ func extractAll(out string) error {
 }
 
 var registered []func(string) (string, string, error)
+
+// files written directly by a generator (besides its main output)
+var keepExtra = map[string]bool{}
+
+func jsonMarshal(v any) ([]byte, error) { return json.MarshalIndent(v, "", " ") }
